@@ -119,6 +119,16 @@ def lp_of(node, env, n):
             return a * b.inv()
     if isinstance(node, ast.Call) and ast.unparse(node.func) == "np.sqrt" and len(node.args) == 1:
         return lp_of(node.args[0], env, n).pow(Fraction(1, 2))
+    if isinstance(node, ast.Call) and ast.unparse(node.func) == "np.log" and len(node.args) == 1 and "__logw__" in env:
+        # log of a pure power of w: log(w^k) = k log w, with `log w` carried as the pseudo-variable env['__logw__']
+        a = lp_of(node.args[0], env, n)
+        wv, lv = env["__w__"], env["__logw__"]
+        if len(a.t) != 1:
+            raise Refuse("log of a sum")
+        (k, v), = a.t.items()
+        if v != 1 or any(e != 0 for i, e in enumerate(k) if i != wv):
+            raise Refuse("log of something else than a power of I3")
+        return LP.var(lv, n) * LP.const(k[wv], n)
     raise Refuse(f"unsupported expression {ast.unparse(node)}")
 
 
@@ -248,13 +258,16 @@ def invariants(repo):
 
 # ---------------------------------------------------------------- laws
 
-LAWS = {"NeoHookean": ["K"], "MooneyRivlin": ["K1", "K2", "K"], "SaintVenantKirchhoff": ["lmbda", "mu", "K"]}
+LAWS = {"NeoHookean": ["K"], "MooneyRivlin": ["K1", "K2", "K"], "SaintVenantKirchhoff": ["lmbda", "mu", "K"], "CiarletGeymonat": ["K1", "K2", "K"]}
+LOG_LAWS = {"CiarletGeymonat"}     # W contains a term  c · log(w)  (c a polynomial in the parameters)
 COMBINE1 = {"NeoHookean": "dW = 2 * (dWdI1 * dI1dC + dWdI3 * dI3dC)", "MooneyRivlin": "dW = 2 * (dWdI1 * dI1dC + dWdI2 * dI2dC + dWdI3 * dI3dC)",
-            "SaintVenantKirchhoff": "dW = 2 * (dWdI1 * dI1dC + dWdI2 * dI2dC + dWdI3 * dI3dC)"}
+            "SaintVenantKirchhoff": "dW = 2 * (dWdI1 * dI1dC + dWdI2 * dI2dC + dWdI3 * dI3dC)",
+            "CiarletGeymonat": "dW = 2 * (dWdI1 * dI1dC + dWdI2 * dI2dC + dWdI3 * dI3dC)"}
 COMBINE2 = {
     "NeoHookean": "d2W = 4 * (dWdI1 * d2I1dC + dWdI3 * d2I3dC) + 4 * (d2WdI1dI3 * TensorProd(dI1dC, dI3dC) + d2WdI3dI1 * TensorProd(dI3dC, dI1dC) + d2WdI3dI3 * TensorProd(dI3dC, dI3dC))",
     "MooneyRivlin": "d2W = 4 * (dWdI1 * d2I1dC + dWdI2 * d2I2dC + dWdI3 * d2I3dC) + 4 * (d2WdI1dI3 * TensorProd(dI1dC, dI3dC) + d2WdI2dI3 * TensorProd(dI2dC, dI3dC) + d2WdI3dI1 * TensorProd(dI3dC, dI1dC) + d2WdI3dI2 * TensorProd(dI3dC, dI2dC) + d2WdI3dI3 * TensorProd(dI3dC, dI3dC))",
     "SaintVenantKirchhoff": "d2W = 4 * (dWdI1 * d2I1dC + dWdI2 * d2I2dC + dWdI3 * d2I3dC) + 4 * (d2WdI1dI1 * TensorProd(dI1dC, dI1dC) + d2WdI3dI3 * TensorProd(dI3dC, dI3dC))",
+    "CiarletGeymonat": "d2W = 4 * (dWdI1 * d2I1dC + dWdI2 * d2I2dC + dWdI3 * d2I3dC) + 4 * (d2WdI1dI3 * TensorProd(dI1dC, dI3dC) + d2WdI2dI3 * TensorProd(dI2dC, dI3dC) + d2WdI3dI1 * TensorProd(dI3dC, dI1dC) + d2WdI3dI2 * TensorProd(dI3dC, dI2dC) + d2WdI3dI3 * TensorProd(dI3dC, dI3dC))",
 }
 
 
@@ -264,10 +277,12 @@ def laws(repo):
     for law, params in LAWS.items():
         fns = _cls(tree, law)
         names = ["I1", "I2", "w"] + params
-        n = len(names)
+        n = len(names) + (1 if law in LOG_LAWS else 0)      # the last variable of a log law is the pseudo-variable log w
         env = {nm: LP.var(i, n) for i, nm in enumerate(names)}
         env["I3"] = LP.var(2, n, 6)
         del env["w"]
+        if law in LOG_LAWS:
+            env["__w__"], env["__logw__"] = 2, n - 1
         d = {}
         for fname in ("Compute_W", "Compute_dWde", "Compute_d2Wde"):
             fn = fns.get(fname)
@@ -287,6 +302,22 @@ def laws(repo):
                 raise Refuse(f"{law}.Compute_d2Wde: combination of the derivatives not recognised")
         if "W" not in d:
             raise Refuse(f"{law}: W not found")
+        if law in LOG_LAWS:
+            lv = n - 1
+            for key, lp in list(d.items()):
+                degs = {k[lv] for k in lp.t}
+                if key != "W":
+                    if degs - {0}:
+                        raise Refuse(f"{law}: {key} contains a logarithm")
+                    d[key] = LP({k[:lv]: v for k, v in lp.t.items()}, n - 1)
+                    continue
+                if degs - {0, 1}:
+                    raise Refuse(f"{law}: W is not affine in log(w)")
+                logc = {k[:lv]: v for k, v in lp.t.items() if k[lv] == 1}
+                if any(k[0] or k[1] or k[2] for k in logc):
+                    raise Refuse(f"{law}: the coefficient of log(w) depends on the invariants")
+                d["W"] = LP({k[:lv]: v for k, v in lp.t.items() if k[lv] == 0}, n - 1)
+                d["__Wlog__"] = LP(logc, n - 1)
         out[law] = (names, d)
     return out
 
@@ -316,6 +347,9 @@ def write(repo: str, outdir: str) -> dict:
     for law, (names, d) in lw.items():
         L.append(f"/-- {law}: variables {', '.join(f'{i} = {nm}' for i, nm in enumerate(names))} -/")
         L.append(f"def {law}_W : PExpr × Nat := {_pair(d['W'], 2)}")
+        if "__Wlog__" in d:
+            L.append(f"/-- coefficient of `log w` in the energy of {law} (the energy is `{law}_W + {law}_Wlog · log w`) -/")
+            L.append(f"def {law}_Wlog : PExpr := {pexpr(d['__Wlog__'])[0]}")
         firsts = [d.get(f"dWdI{i}", LP.const(0, len(names))) for i in (1, 2, 3)]
         L.append(f"def {law}_dW : List (PExpr × Nat) := [" + ", ".join(_pair(f, 2) for f in firsts) + "]")
         rows = []
@@ -324,7 +358,7 @@ def write(repo: str, outdir: str) -> dict:
             row = []
             for b in (1, 2, 3):
                 key = f"d2WdI{a}dI{b}"
-                if key in d:
+                if key in d and not key.startswith("__"):
                     present.append(key)
                 row.append(_pair(d.get(key, LP.const(0, len(names))), 2))
             rows.append("[" + ", ".join(row) + "]")
